@@ -1269,7 +1269,12 @@ fn compare_wallets(pre: &Obs, post: &Obs, eff: &Effect, a: &Action, names: &Name
                 f.push(Finding::new("C04.wallet_drained", kind, detail.clone()));
             }
             if after < before && who == a.sender && !a.act.is_deposit() && a.act.is_market() {
-                f.push(Finding::new("C19.sender_charged", kind, detail));
+                f.push(Finding::new("C19.sender_charged", kind, detail.clone()));
+            }
+            // a record that is gone after its payout although its owner did not receive the recorded asset
+            // can never be claimed again: the entitlement was claimable zero times instead of once
+            if a.act.is_payout() && who == a.sender && want.map_or(false, |w| after < w) {
+                f.push(Finding::new("C03.claim_lost", kind, detail));
             }
         }
     }
@@ -1288,6 +1293,9 @@ fn compare_wallets(pre: &Obs, post: &Obs, eff: &Effect, a: &Action, names: &Name
         if want != after {
             let detail = format!("{kind} by {}: NFT {}#{} owner {:?} -> {:?}, expected {:?}", a.sender, n.0, n.1, before, after, want);
             f.push(Finding::new(rule, kind, detail.clone()));
+            if a.act.is_payout() && want.map(|s| s.as_str()) == Some(a.sender.as_str()) {
+                f.push(Finding::new("C03.claim_lost", kind, detail.clone()));
+            }
             if before.map(|s| s.as_str()) != Some(a.sender.as_str()) && before.map(|s| s.as_str()) != Some(names.market.as_str()) {
                 f.push(Finding::new("C04.wallet_drained", kind, detail));
             }
